@@ -32,6 +32,7 @@ pub struct Ctl {
     pub start_seeks: Cell<u64>,
     pub flushes: Cell<u64>,
     pub bytes_written: Cell<u64>,
+    pub committed: Cell<u64>,         // bytes_written at the last successful flush
     /// fault: (component, ordinal or byte position)
     pub fault: Cell<Option<(u8, u64)>>, // 0 write-at-byte, 1 flush#, 2 read#, 3 seek#
     pub fired_at: Cell<Option<u64>>,    // the public call in progress when the fault fired
@@ -43,7 +44,7 @@ impl Ctl {
         Rc::new(Ctl {
             explicit: RefCell::new(Vec::new()), rng: RefCell::new(None), mode: Cell::new(0), tick: Cell::new(0),
             calls: RefCell::new(Vec::new()), writes: Cell::new(0), reads: Cell::new(0), seeks: Cell::new(0),
-            start_seeks: Cell::new(0), flushes: Cell::new(0), bytes_written: Cell::new(0), fault: Cell::new(None),
+            start_seeks: Cell::new(0), flushes: Cell::new(0), bytes_written: Cell::new(0), committed: Cell::new(0), fault: Cell::new(None),
             fired_at: Cell::new(None), public_call: Cell::new(0), read_load: RefCell::new(Vec::new()),
         })
     }
@@ -120,6 +121,7 @@ impl Write for Sched {
             c.fire();
             return Err(injected());
         }
+        c.committed.set(c.bytes_written.get());
         Ok(())
     }
 }
@@ -635,7 +637,20 @@ pub fn run_history_ctl(file: &[u8], ops: &[(usize, Op)], ctl: Rc<Ctl>) -> (Strin
         let r = catch(|| crate::c_hist::apply_op(cur, op));
         match r {
             Ok(Ok(x)) => lines.push(format!("{:?}", x)),
-            Ok(Err(e)) => return (digest(&lines), format!("{} {}", i, e)),
+            Ok(Err(e)) => {
+                // the failed call has returned its error; the source works again: whatever the cursor now
+                // answers, using it further must not panic
+                ctl.fault.set(None);
+                for later in [Op::Current, Op::Next, Op::Prev, Op::Current, Op::First, Op::Next, Op::Last, Op::Prev] {
+                    let cur = cursors[*cid].as_mut().unwrap();
+                    if catch(|| crate::c_hist::apply_op(cur, &later).map(|_| ())).is_err() {
+                        println!("DIRECT fail after-fault: operation {} ({}) returned {}; with the source working again a later {} on the same cursor panicked",
+                                 i, crate::c_hist::op_token(op), e, crate::c_hist::op_token(&later));
+                        break;
+                    }
+                }
+                return (digest(&lines), format!("{} {}", i, e));
+            }
             Err(_) => return (digest(&lines), format!("{} panic", i)),
         }
     }
